@@ -282,14 +282,13 @@ fn group_aligned_items<T: AlignedItem>(
             return ("", index);
         }
         let span = mk_sp(fields[i].get_span().hi(), fields[i + 1].get_span().lo());
-        let snippet = context
-            .snippet(span)
-            .lines()
+        // The lines strictly between the line of this field and the line of the next one.
+        // `split` rather than `lines`: the last piece is the (possibly empty) indentation of
+        // the next field and must not be taken for one of the lines in between.
+        let lines = context.snippet(span).split('\n').collect::<Vec<_>>();
+        let has_blank_line = lines
+            .iter()
             .skip(1)
-            .collect::<Vec<_>>()
-            .join("\n");
-        let has_blank_line = snippet
-            .lines()
             .dropping_back(1)
             .any(|l| l.trim().is_empty());
         if has_blank_line {
